@@ -65,6 +65,9 @@ func (o finalObs) eq(p finalObs) bool {
 
 func runC14(r *vhlib.Run) {
 	rng := r.Rng
+	// lifecycle histories of flate.Reader (Read / Close / Reset in any order over scripted sources)
+	// against the implementation-level model, per call (Flate/ImplLife.v)
+	wfllife(r)
 	depth := 2
 	if !r.Quick() {
 		depth = 3
